@@ -131,7 +131,7 @@ func mkPacket(p pkt) *layers.IPv4 {
 	return out
 }
 
-func evalAll(c pktcls.Cond, pkts []*layers.IPv4) []int {
+func evalAll(c interface{ Eval(gopacket.Layer) bool }, pkts []*layers.IPv4) []int {
 	res := []int{}
 	for i, p := range pkts {
 		if c.Eval(p) {
@@ -170,7 +170,7 @@ func main() {
 			w.Emit(vt.M{"ev": "reset", "pkts": rc.Pkts})
 		case "cls":
 			out := vt.M{"ev": "cls", "ast": rc.AST, "text": "", "err1": 0, "true1": []int{}, "printed": "",
-				"err2": 0, "true2": []int{}, "panic": 0}
+				"err2": 0, "true2": []int{}, "err3": 0, "true3": []int{}, "panic": 0}
 			func() {
 				defer func() {
 					if e := recover(); e != nil {
@@ -193,6 +193,19 @@ func main() {
 					return
 				}
 				out["true2"] = evalAll(c2, pkts)
+				// configuration form: the class inside a ClassMap, marshalled to JSON and loaded again
+				cm := pktcls.ClassMap{"cls": pktcls.NewClass("cls", c1)}
+				js, err := json.Marshal(cm)
+				if err != nil {
+					out["err3"] = 1
+					return
+				}
+				var cm2 pktcls.ClassMap
+				if err := json.Unmarshal(js, &cm2); err != nil || cm2["cls"] == nil || cm2["cls"].Cond == nil {
+					out["err3"] = 1
+					return
+				}
+				out["true3"] = evalAll(cm2["cls"], pkts)
 			}()
 			w.Emit(out)
 		default:
